@@ -28,7 +28,20 @@ type Hooks struct {
 	Blocked func(ctx *base.EntryContext, err *base.BlockError)
 	// Completed runs first among the completion callbacks.
 	Completed func(ctx *base.EntryContext)
+	// Recorded runs last in the statistic phase of a passed entry: every statistic slot has seen it.
+	Recorded func(ctx *base.EntryContext)
 }
+
+type lastStat struct{ h *Hooks }
+
+func (s *lastStat) Order() uint32 { return math.MaxUint32 }
+func (s *lastStat) OnEntryPassed(ctx *base.EntryContext) {
+	if s.h.Recorded != nil {
+		s.h.Recorded(ctx)
+	}
+}
+func (s *lastStat) OnEntryBlocked(ctx *base.EntryContext, err *base.BlockError) {}
+func (s *lastStat) OnCompleted(ctx *base.EntryContext)                          {}
 
 type firstCheck struct{ h *Hooks }
 
@@ -89,6 +102,7 @@ func NewPhaseChain(h *Hooks) *base.SlotChain {
 	sc.AddStatSlot(flow.DefaultStandaloneStatSlot)
 	sc.AddStatSlot(hotspot.DefaultConcurrencyStatSlot)
 	sc.AddStatSlot(circuitbreaker.DefaultMetricStatSlot)
+	sc.AddStatSlot(&lastStat{h})
 	return sc
 }
 
